@@ -68,7 +68,10 @@ func newSchema(table string, master []sqliteMaster) (*Schema, error) {
 		return nil, errors.New("unsupported CREATE TABLE statement")
 	}
 
-	st := newCreateTable(ct)
+	st, err := newCreateTable(ct)
+	if err != nil {
+		return nil, err
+	}
 
 	for _, m := range master {
 		if m.typ == "index" && m.tblName == n && m.sql != "" {
@@ -86,7 +89,7 @@ func newSchema(table string, master []sqliteMaster) (*Schema, error) {
 
 // transform a `create table` statement into a Schema, which knows which
 // indexes are used
-func newCreateTable(ct sql.CreateTableStmt) *Schema {
+func newCreateTable(ct sql.CreateTableStmt) (*Schema, error) {
 	st := &Schema{
 		Table:        ct.Table,
 		WithoutRowid: ct.WithoutRowid,
@@ -158,6 +161,9 @@ constraint:
 			if !ct.WithoutRowid && len(c.IndexedColumns) == 1 {
 				// is this column an alias for the rowid?
 				col := st.column(c.IndexedColumns[0].Column)
+				if col == nil {
+					return nil, fmt.Errorf("no such column: %q", c.IndexedColumns[0].Column)
+				}
 				if isRowid(true, col.Type, c.IndexedColumns[0].SortOrder) {
 					col.Rowid = true
 					st.RowidPK = true
@@ -166,7 +172,11 @@ constraint:
 			}
 			if ct.WithoutRowid {
 				for _, co := range c.IndexedColumns {
-					st.column(co.Column).Null = false
+					col := st.column(co.Column)
+					if col == nil {
+						return nil, fmt.Errorf("no such column: %q", co.Column)
+					}
+					col.Null = false
 				}
 				st.setPK(st.toIndexColumns(c.IndexedColumns))
 				autoindex++
@@ -184,7 +194,7 @@ constraint:
 		}
 	}
 
-	return st
+	return st, nil
 }
 
 // add `CREATE INDEX` statement to a table
